@@ -9,3 +9,22 @@ def unicode_ignorecase_mask(cp):
         relib._UNICODE_IGNORECASE_MASKS[cp] = mask
     return mask
 relib.unicode_ignorecase_mask = unicode_ignorecase_mask
+
+
+def patch_elementpath():
+    """C-level constructors do not accept CrossHair's symbolic proxies: `int.__new__(Integer, <symbolic str>)` raises a TypeError
+    that elementpath maps to FORG0001, so every string would look "not castable" (a false PASS hazard, found by a debugging
+    probe).  In solver mode the int/float subclasses of elementpath realise their argument first; realisation only narrows the
+    explored inputs (the condition is then not exhausted), it never changes an answer."""
+    from crosshair import realize
+    from elementpath.datatypes import numeric
+
+    def integer_new(cls, value=0, *args):
+        return int.__new__(cls, realize(value), *args)
+    numeric.Integer.__new__ = staticmethod(integer_new)
+
+    orig_float_new = numeric.Float.__new__
+
+    def float_new(cls, value, xsd_version=None):
+        return orig_float_new(cls, realize(value), xsd_version)
+    numeric.Float.__new__ = staticmethod(float_new)
